@@ -6,6 +6,13 @@
 #include <limits>
 #include <map>
 
+#ifdef PSTLAB_ORATIO_VERIF
+namespace oratio_verif
+{
+  struct access;
+}
+#endif
+
 namespace smt
 {
   class idl_value_listener;
@@ -13,6 +20,9 @@ namespace smt
   class idl_theory : public theory
   {
     friend class idl_value_listener;
+#ifdef PSTLAB_ORATIO_VERIF
+    friend struct ::oratio_verif::access;
+#endif
 
   public:
     SMT_EXPORT idl_theory(sat_core &sat, const size_t &size = 16);
@@ -64,6 +74,9 @@ namespace smt
     class idl_distance final
     {
       friend class idl_theory;
+#ifdef PSTLAB_ORATIO_VERIF
+      friend struct ::oratio_verif::access;
+#endif
 
     public:
       idl_distance(const lit &b, const var &from, const var &to, const I &dist) : b(b), from(from), to(to), dist(dist) {}
